@@ -18,6 +18,10 @@ elif nofail:
     caught = "caught only as broken obligation/correspondence: VIOLATION … no-failing-input-found (" + nofail[0][1] + ")"
 else:
     print("no violation line", name); sys.exit(1)
+import json
+notes = json.load(open("/verif/tools/seed_notes.json"))
+if not note and name in notes:
+    note = notes[name]
 if note:
     caught = note + "; " + caught
 subprocess.check_call(["python3", "/verif/tools/keep_mutation.py", src, name, caught])
